@@ -141,7 +141,7 @@ Qed.
 
 (* ------------------------------------------------------------------ corollaries of the spec *)
 Definition sets_status (o : op) : bool :=
-  match o with OStatus _ | ORedirect _ _ | ONoContent _ | OWriteHeader _ => true | _ => false end.
+  match o with OStatus _ | ORedirect _ _ | ONoContent _ | OWriteHeader _ | OHTMLWith _ _ | OFormatted _ _ => true | _ => false end.
 
 Lemma spec_head_default ops : forall h, existsb sets_status ops = false -> fst (spec_head (200, h) ops) = 200.
 Proof.
@@ -167,7 +167,8 @@ Fixpoint first_commit (ops : list op) : option op :=
 Lemma spec_head_status ops : forall s h,
   fst (spec_head (s, h) ops) =
   match first_commit ops with
-  | Some (ORedirect _ c) | Some (ONoContent c) | Some (OWriteHeader c) => c
+  | Some (ORedirect _ c) | Some (ONoContent c) | Some (OWriteHeader c)
+  | Some (OHTMLWith _ c) | Some (OFormatted c _) => c
   | _ => last_status s (before_commit ops)
   end.
 Proof.
@@ -178,7 +179,8 @@ Qed.
 Lemma client_status_l ops :
   fst (fst (client (run ops))) =
   match first_commit ops with
-  | Some (ORedirect _ c) | Some (ONoContent c) | Some (OWriteHeader c) => c
+  | Some (ORedirect _ c) | Some (ONoContent c) | Some (OWriteHeader c)
+  | Some (OHTMLWith _ c) | Some (OFormatted c _) => c
   | _ => last_status 200 (before_commit ops)
   end.
 Proof. rewrite wire_is_spec_l. unfold spec; cbn. apply spec_head_status. Qed.
